@@ -308,6 +308,12 @@ def initEnv (P : Platform) (f : Func) (args : List Int) : Env :=
   (List.range f.vars.length).map fun i =>
     if i < f.nparams then conv P (varTy f.vars i) (args.getD i 0) else 0
 
+/-- the LP64 data model (cppcheck platform `unix64`), used by the examples and counterexamples of Props/C01.lean -/
+def lp64 : Platform :=
+  { name := "unix64", charBit := 8, sizeofBool := 1, sizeofShort := 2, sizeofInt := 4, sizeofLong := 8, sizeofLongLong := 8,
+    sizeofFloat := 4, sizeofDouble := 8, sizeofLongDouble := 16, sizeofWchar := 4, sizeofSizeT := 8, sizeofPointer := 8,
+    charUnsigned := false, windows := false }
+
 def run (P : Platform) (f : Func) (fuel : Nat) (args : List Int) : Out × List Event :=
   execS P f.vars fuel (initEnv P f args) f.body
 
